@@ -125,9 +125,48 @@ def model(ctx):
     return model_check(ctx, module, cfg, timeout=2400, tag="MCNum-" + ctx.prop)
 
 
+def apalache_quant(ctx):
+    """Symbolic complement (C06/C07): for REAL depth pairs the reference requantisation satisfies range, levels, accuracy,
+    order and round trip for EVERY source value (Apalache, Init => Inv at length 0; strict monotonicity as negative
+    control on a narrowing pair). Tool trouble only degrades the evidence."""
+    import concurrent.futures, shutil, subprocess
+    if not shutil.which("apalache-mc"):
+        return dict(ran=False, reason="apalache-mc not on PATH")
+    d = os.path.join(ctx.work, "apaq")
+    os.makedirs(d, exist_ok=True)
+    shutil.copy(os.path.join(ctx.spec, "QuantApa.tla"), d)
+    combos = [(ss, sd, ds, dd) for ss in (True, False) for ds in (True, False) for sd in (8, 16, 32, 64) for dd in (8, 16, 32, 64)]
+    if ctx.tier == "quick":
+        combos = [c for i, c in enumerate(combos) if (i + ctx.seed) % 8 == 0]
+
+    def one(i, c, inv="Inv"):
+        ss, sd, ds, dd = c
+        name = "q%d%s" % (i, inv)
+        open(os.path.join(d, name + ".cfg"), "w").write("CONSTANTS\n  SD = %d\n  DD = %d\n  SS = %s\n  DS = %s\nINIT Init\nNEXT Next\n" % (sd, dd, str(ss).upper(), str(ds).upper()))
+        try:
+            r = subprocess.run(["apalache-mc", "check", "--config=%s.cfg" % name, "--inv=" + inv, "--length=0", "--out-dir=" + os.path.join(d, "out-" + name), "QuantApa.tla"],
+                               cwd=d, capture_output=True, text=True, timeout=600)
+        except subprocess.TimeoutExpired:
+            return c, "timeout"
+        return c, "holds" if "EXITCODE: OK" in r.stdout else "violated" if "EXITCODE: ERROR (12)" in r.stdout else "inconclusive"
+
+    with concurrent.futures.ThreadPoolExecutor(6) as ex:
+        res = list(ex.map(lambda ic: one(*ic), enumerate(combos)))
+    neg = one(999, (True, 64, False, 8), "Strict")
+    shutil.rmtree(d, ignore_errors=True)
+    bad = [c for c, r in res if r == "violated"]
+    if bad or neg[1] == "holds":
+        raise Infra("Apalache: the reference requantisation violates the envelope for %s (negative control: %s): specification error" % (bad, neg[1]))
+    out = dict(ran=True, pairs_checked=len(res), hold=sum(1 for _, r in res if r == "holds"), inconclusive=[str(c) for c, r in res if r not in ("holds", "violated")],
+               negative_control_strict_monotone=neg[1])
+    ctx.note("Apalache: reference requantisation satisfies C06/C07 for ALL source values on %d/%d format pairs (negative control %s)" % (out["hold"], len(res), neg[1]))
+    return out
+
+
 def run(ctx):
     spec = PROPS[ctx.prop]
     mc = model(ctx)
+    apa = apalache_quant(ctx) if ctx.prop in ("C06", "C07") else None
     st = ctx.record(spec["profile"])
     ctx.note("recorded %s: %d scans, %d events %s" % (st["profile"], st["traces"], st["events"], st["ops"]))
     if st["extra"].get("capped_sweeps"):
@@ -149,6 +188,11 @@ def run(ctx):
                ops=st["ops"], instantiations=st["types"], known_findings_seen=len(kn), mismatches_other_classes=len(other),
                capped_sweeps=st["extra"].get("capped_sweeps", 0), exhaustive=False,
                exhaustive_parts=EXHAUSTIVE_PARTS.get((spec["profile"], ctx.tier), []))
+    if apa:
+        cov["apalache_all_values"] = apa
+    if spec["profile"] == "quant":
+        cov["points_agreeing_with_reference_function"] = tot["unspec"]      # NumTrace reports it in the summary's third field
+        cov["points_recorded"] = st["ops"].get("P", 0)
     if mc:
         cov.update(states=mc["distinct"], transitions=mc["generated"], model=dict(module="MCNum", family=spec["mc"][1], depth=mc["depth"], exhaustive=True))
     write_evidence(ctx, "model_checking", cov,
